@@ -16,7 +16,7 @@ RULE = ("cases from rng(seed, 2, 0, i): a random graph of 1..40 edges over r2/r3
         "every 4th case is a consistent graph (measurements generated from the vertices by the reference model) checked for chi2=0 and "
         "chi2>0 after perturbing one measurement; every 5th checks linearity in Omega on twin edges; every 8th case is an operand history on one live edge (estimate / pose / offset / information replaced or modified in place between calls). distinct = fingerprint of the spec; "
         "non-trivial = chi2 above 1e3 x rounding bound, or a consistent graph with >=3 edges.")
-REQ = ["eval:error-vs-reference", "eval:chi2-vs-eT-Omega-e", "eval:graph-chi2-is-sum", "eval:consistent-graph-chi2-zero", "eval:perturbed-measurement-chi2-positive",
+REQ = ["eval:error-vs-reference", "eval:chi2-vs-eT-Omega-e", "eval:graph-chi2-is-sum", "eval:optimize-initial-chi2-is-graph-chi2", "eval:consistent-graph-chi2-zero", "eval:perturbed-measurement-chi2-positive",
        "eval:chi2-linear-in-Omega", "eval:chi2-nonnegative-psd", "kind:odo-se3", "kind:lm-se3", "kind:lm-se2", "kind:lm-r2", "class:info:cross", "class:info:tiny_scale", "class:info:huge_scale", "class:q:wneg", "class:landmark_offset_rotated", "history_steps"]
 PLAN = {
     "quick": {"cases": 6000, "soft_s": 60, "min_nontrivial": 1000, "require": REQ},
@@ -145,6 +145,22 @@ def run_case(ctx, i, rng):
         c_graph = float(g.calc_chi2())
     ne = len(g._edges)
     ctx.close("graph-chi2-is-sum", c_graph, tot_ref, tot_bound + 8 * ne * R.EPS * abs(tot_ref), {"edges": ne}, None, case)
+    if i % 3 == 0 and ne <= 25:
+        # the chi2 that optimize() reports for the initial state is the same sum over all edges, whatever the fixed flags
+        # (edges between two fixed vertices included)
+        spec_o = gen.copy_spec(spec)
+        nfix = 0
+        for v in spec_o["vertices"]:
+            if rng.random() < 0.5:
+                v["fixed"] = True
+                nfix += 1
+        go = M.build(spec_o)
+        try:
+            res = M.quiet_optimize(go, max_iter=1, tol=0.0, fix_first_pose=bool(rng.random() < 0.5))
+            ctx.close("optimize-initial-chi2-is-graph-chi2", float(res.initial_chi2), tot_ref, tot_bound + 8 * ne * R.EPS * abs(tot_ref), {"edges": ne, "n_fixed": nfix}, None,
+                      {"graph": spec_o})
+        except Exception as ex:
+            ctx.count("optimize_raised_in_chi2_report_subcheck:" + type(ex).__name__)
     if consistent:
         ctx.close("consistent-graph-chi2-zero", c_graph, 0.0, tot_bound, {"edges": ne}, {"chi2": c_graph}, case)
         # perturb one measurement by a visible amount: chi2 must become clearly positive (all information PD here)
